@@ -5,7 +5,7 @@
 # they are discarded afterwards (committed ones restored, new ones kept only
 # under build/seed-replays/ for inspection). Never commits.
 set -u
-P="$1"; ID="$2"; B="${3:-60}"
+P="$(readlink -f "$1")"; ID="$2"; B="${3:-60}"
 cd /repo || exit 2
 if [ -n "$(git status --porcelain)" ]; then echo "/repo is dirty" >&2; exit 2; fi
 cd /verif || exit 2
